@@ -145,6 +145,9 @@ func (ex *Exec) exec(g *G, f *Frame, in ssa.Instruction) {
 	case *ssa.Alloc:
 		p := new(Value)
 		*p = ex.zero(derefType(x.Type()))
+		if ex.spec > 0 {
+			ex.markFresh(p)
+		}
 		ex.setReg(f, x, Ptr{P: p})
 	case *ssa.Store:
 		p := ex.reg(f, x.Addr).(Ptr)
@@ -186,6 +189,9 @@ func (ex *Exec) exec(g *G, f *Frame, in ssa.Instruction) {
 		full := a[:c]
 		for i := range full {
 			full[i] = ex.zero(et)
+			if ex.spec > 0 {
+				ex.markFresh(&full[i])
+			}
 		}
 		ex.setReg(f, x, Slice{A: a})
 	case *ssa.MakeMap:
@@ -411,6 +417,9 @@ func (ex *Exec) mapKey(k Value) interface{} {
 		}
 		return [2]interface{}{x.T.String(), ex.mapKey(x.V)}
 	case Flt:
+		if x.Sp != spFin {
+			panic(unsupported{"special float as a map key"})
+		}
 		if x.T == nil && x.R != nil {
 			return "f:" + x.R.String()
 		}
